@@ -63,6 +63,30 @@ theorem remaining_default_ignores_own (rl : Option Int) (own : Option Nat) (s : 
     newDefaultRemaining (.bufferTransport s) = 18446744073709551615 ∧
     newDefaultRemaining (.bytesBuffer s) = s.len := ⟨rfl, rfl, rfl⟩
 
+/-- Close of the generic transport returns (nil) without touching the wrapped object: state, unread
+    bytes and the remaining-bytes figure are unchanged — unlike the buffer transport (`close_empties`). -/
+theorem close_noop (d : DT) :
+    dtStep d .close = (d, .done) ∧ dtRemaining (dtStep d .close).1 = dtRemaining d ∧
+    (dtStep d .close).1.s.bytes = d.s.bytes := ⟨rfl, rfl, rfl⟩
+
+/-- Hence a history on a generic transport is the history of the wrapped object with every Close
+    erased: later reads and writes still see exactly what was written before the Close. -/
+theorem default_history_passthrough (d : DT) (ops : List Op) :
+    (dtRun d ops).1.s = (run d.s (ops.map closeToNoop)).1 ∧
+    (dtRun d ops).2 = (run d.s (ops.map closeToNoop)).2 ∧
+    (dtRun d ops).1.hasRL = d.hasRL := by
+  have hstep : ∀ (d : DT) (op : Op), (dtStep d op).1.s = (step d.s (closeToNoop op)).1 ∧
+      (dtStep d op).2 = (step d.s (closeToNoop op)).2 ∧ (dtStep d op).1.hasRL = d.hasRL := by
+    intro d op; cases op <;> exact ⟨rfl, rfl, rfl⟩
+  induction ops generalizing d with
+  | nil => exact ⟨rfl, rfl, rfl⟩
+  | cons op ops ih =>
+    obtain ⟨h1, h2, h3⟩ := ih (dtStep d op).1
+    obtain ⟨s1, s2, s3⟩ := hstep d op
+    simp only [dtRun, run, List.map_cons]
+    rw [h1, h2, h3, s1, s2, s3]
+    exact ⟨rfl, rfl, rfl⟩
+
 /-- A registered callback receives exactly the arguments given and its result is returned. -/
 theorem callback_passthrough {α β ρ : Type} (r : Registry α β ρ)
     (fc : α → ρ) (fr fw : β → α → ρ) (x : β) (v : α) :
@@ -90,6 +114,8 @@ example : (run (Buf.new [1, 2, 3]) [.read .T 2, .write .B [9], .read .B 5, .read
 example : remainingDefault (some 5) = 5 ∧ remainingDefault (some 0) = 2 ^ 64 - 1 ∧
     remainingDefault (some (-3)) = 2 ^ 64 - 1 := by decide
 example : newDefaultRemaining (.other (some 7) (some 3)) = 7 ∧ newDefaultRemaining (.other (some 0) (some 3)) = 2 ^ 64 - 1 := by decide
+example : (dtRun ⟨Buf.new [1, 2], true⟩ [.close, .read .T 1, .close, .write .B [9], .read .T 5]).2 =
+    [.done, .got [1] false, .done, .wrote 1, .got [2, 9] false] := by decide
 example : checkTStruct ((Registry.empty : Registry Nat Nat Nat).regCheck (some (· + 1))) 4 = .ok 5 := rfl
 
 end Verif.C19
